@@ -1,6 +1,8 @@
 import CijModel.Wire
 import CijModel.QhaInput
 import CijModel.Evec
+import CijModel.EvecSrc
+import Generated.EvecSpec
 open Lean Cij Cij.Wire
 
 namespace Cij.Ops.C20
@@ -54,6 +56,40 @@ def handle : Handler := fun op j =>
             Json.arr (ms.map fun ((i, thz, cm), v) => Json.arr #[
               Json.arr #[jInt i, jRat thz, jRat cm],
               Json.arr (v.map fun (x, y) => Json.arr #[jRat x, jRat y]).toArray]).toArray]).toArray)
+  | "c20.rx" => some do
+      -- the backtracking matcher of CijModel/EvecSrc.lean on the regex AST translated from evec_load.py on this run
+      let which ← strOfJson (← field j "which")
+      let ss ← listOf strOfJson (← field j "strings")
+      let items := if which == "q" then Generated.qCoordsRegex else Generated.modeIndexRegex
+      pure (Json.arr (ss.map fun s => match Cij.EvecSrc.Rx.search items s.toList with
+        | none => Json.null
+        | some gs => Json.arr (gs.map fun g => Json.str (String.ofList g)).toArray).toArray)
+  | "c20.load_src" => some do
+      -- evec_load driven by the translated description (regexes, slices, converters, steps): `EvecSrc.evecLoadS`
+      let ls ← listOf strOfJson (← field j "lines")
+      let nq ← natOfJson (← field j "nq")
+      let np ← natOfJson (← field j "np")
+      pure (match Cij.EvecSrc.evecLoadS Generated.loadSpec pfRat nq np (ls.map String.toList) with
+        | none => Json.str "error"
+        | some qs => Json.arr (qs.map fun (q, ms) => Json.arr #[
+            Json.arr (q.map jRat).toArray,
+            Json.arr (ms.map fun ((i, thz, cm), v) => Json.arr #[
+              Json.arr #[jInt i, jRat thz, jRat cm],
+              Json.arr (v.map fun (x, y) => Json.arr #[jRat x, jRat y]).toArray]).toArray]).toArray)
+  | "c20.sort_src" => some do
+      -- evec_sort driven by the translated description: `EvecSrc.runSort`
+      let t ← cx2 (← field j "target")
+      let b ← cx2 (← field j "base")
+      let n ← natOfJson (← field j "n_items")
+      pure (match Cij.EvecSrc.runSort Generated.sortSpec none none (List.range n) t b with
+        | some l => Json.arr (l.map fun o => match o with | some i => jInt i | none => Json.null).toArray
+        | none => Json.str "error")
+  | "c20.disp2eig_src" => some do
+      let a ← cx2 (← field j "a")
+      let m ← floats1 (← field j "mass")
+      pure (match Cij.EvecSrc.runDisp Generated.dispSpec a m with
+        | some r => jCx2 r
+        | none => Json.str "error")
   | _ => none
 
 end Cij.Ops.C20
